@@ -143,13 +143,35 @@ def run(ctx):
             violations.append({"what": what, "classification": {"kind": kind, "atime": desc["atime"], "coarse": bool(desc["gran"])}, "replay": {"kind": "history", "env": {"atime": desc["atime"], "gran_ns": desc["gran"]}, "scenario": lines}})
         if len(samples) < 3:
             samples.append({"env": [desc["atime"], desc["gran"]], "kind": desc["kind"], "first_ops": [l for l in lines if l.startswith("op ")][:5]})
+    # touch / lookup racing a set on the same key (real interleavings): whenever the set's value
+    # is what the key holds at the end, it sits at the back of the queue (stamped now, not with
+    # the replaced entry's old modification time)
+    import time
+    from . import conc as K
+    t_start = int(time.time() * 10**9)
+    sched_runs = K.explore(ctx, only=lambda f: "touch-vs-set" in f["name"] or "set-vs-get/present" in f["name"])
+    for fam, kind, plan, cr, diffs, obs, ml in sched_runs:
+        if diffs:
+            ties.append({"what": "model (Conc/Pool.v) and implementation disagree on the same schedule", "case": {"family": fam["name"], "schedule_kind": kind}, "detail": diffs[:3]})
+        else:
+            agree += 1
+        if cr is None or not cr.final or not cr.final.snaps:
+            continue
+        newv = K.fnv_show(K.BIG1)
+        for l in cr.final.snaps[-1]:
+            f = l.split(" ")
+            if f[1] == "f" and f[0].endswith("/" + K.KEY[0]) and f[0].startswith("w/") and f[7] == newv:
+                if int(f[5]) < t_start - 60 * 10**9:
+                    violations.append({"what": "after a set raced by a touch/lookup, the new entry %s carries modification time %s, older than the set itself: it was not enqueued fresh" % (f[0], f[5]),
+                                       "classification": {"kind": "stale-mtime-after-set", "family": fam["name"].split(":")[1]},
+                                       "replay": {"kind": "schedule", "family": fam["name"], "setup": fam["setup"], "participants": K.part_lines(fam), "schedule": K.schedule_text(cr)}})
     seen, uniq = set(), []
     for v in violations:
         k = tuple(sorted(v["classification"].items()))
         if k not in seen:
             seen.add(k); uniq.append(v)
-    cov = {"evaluations": len(res), "distinct_nontrivial": nontriv, "steps": steps,
-           "rule": "operation sequences (30-60 steps) over 3-5 keys on plain, sharded and stacked front-ends under {kernel default relatime, emulated no-atime} x {native, 1 s, 2 s} timestamp granularity, run back to back so that reads fall in the granule of the insertion: after every step (rank order, read mark, content) of every entry is compared with the model run under the same policy, and the property's oracle is applied to the implementation's snapshots (a read marks and neither reorders nor rewrites, a put onto an existing key likewise, a set / inserting put is newest and unmarked). Non-trivial = coarse granularity or no-atime.",
+    cov = {"evaluations": len(res) + len(sched_runs), "distinct_nontrivial": nontriv + len(sched_runs), "steps": steps, "real_schedules_explored": len(sched_runs),
+           "rule": "operation sequences (30-60 steps) over 3-5 keys on plain, sharded and stacked front-ends under {kernel default relatime, emulated no-atime} x {native, 1 s, 2 s} timestamp granularity, run back to back so that reads fall in the granule of the insertion: after every step (rank order, read mark, content) of every entry is compared with the model run under the same policy, and the property's oracle is applied to the implementation's snapshots (a read marks and neither reorders nor rewrites, a put onto an existing key likewise, a set / inserting put is newest and unmarked). In addition every single context-switch schedule of {touch, get | set} on one key (real processes, gate mode) is run: the set's value must end up stamped with the time of the set. Non-trivial = coarse granularity or no-atime, or a real schedule.",
            "samples": samples, "traces_validated_against_impl": agree}
     if not ctx.quick():
         rc, o = C.coqchk(PROPS)
